@@ -37,7 +37,11 @@ RULE = ('a case = one package description: project name/version, 0-5 libraries '
         'auto_fill on/off with omitted fields, custom libdir/includedir; library() '
         'objects without kind= next to shared_library()/static_library() under '
         '--enable/--disable-shared x --enable/--disable-static (dual, shared-only, '
-        'static-only), auto-filled from install() and with explicit libs=; external '
+        'static-only), auto-filled from install() and with explicit libs=; '
+        'install(headers, directory=..) / install(libs, directory=..) with relative '
+        'names and Path(.., InstallRoot.x) before pkg_config() names or auto-fills '
+        'them (really installed; the installed-form consumer runs with the build and '
+        'source trees renamed away); external '
         'package() objects (stand-in mopack -> 1-3 hand-written .pc names, with/'
         'without a specifier) in requires/requires_private/conflicts and in '
         'packages= of public, private and transitive libraries. Kinds: '
@@ -117,6 +121,8 @@ def floors(tier):
         'calib:value_admitted': 250 if q else 2500,
         'consumer:built_and_ran': 24 if q else 250,
         'dual:both_variants_installed': 3 if q else 50,
+        'install:files_at_modelled_place': 20 if q else 300,
+        'consumer:installed_tree_only': 20 if q else 300,
         'version:exists_eval': 300 if q else 5000,
         'version:ref_agrees': 300 if q else 5000,
         'requires:names_checked': 30 if q else 500,
@@ -182,6 +188,7 @@ def base_case(kind):
         'requires': [], 'requires_private': [], 'conflicts': [],
         'deps': {},
         'packages': [],
+        'install_dirs': None,
         'build': False, 'consumer': False,
     }
 
@@ -546,6 +553,34 @@ def libmode_case(rng, mode, shape, auto, omit=None):
     return c
 
 
+HDR_DIRS = [{'form': 'rel', 'value': 'demo-1'}, {'form': 'rel', 'value': 'foo/api'},
+            {'form': 'path', 'root': 'includedir', 'value': 'abs-inc'},
+            {'form': 'path', 'root': 'prefix', 'value': 'headers/v2'},
+            {'form': 'path', 'root': 'datadir', 'value': 'foo/include'}, None]
+LIB_DIRS = [{'form': 'rel', 'value': 'demo-1'}, {'form': 'rel', 'value': 'foo/plugins'},
+            {'form': 'path', 'root': 'libdir', 'value': 'abs-lib'},
+            {'form': 'path', 'root': 'prefix', 'value': 'opt/lib'},
+            {'form': 'path', 'root': 'exec_prefix', 'value': 'lib32'}, None]
+
+
+def installdir_case(rng, i):
+    """install(..., directory=...) for what pkg_config() names or auto-fills:
+    built, really installed, consumed from the installed tree."""
+    if i % 4 == 3:
+        c = libmode_case(rng, LIBMODES[(i // 4) % 3], MODE_SHAPES[(i // 4) % 4],
+                         auto=(i // 4) % 2 == 0)
+    else:
+        c = full_case(rng, LIB_SHAPES[(i * 3 + 2) % len(LIB_SHAPES)], hostile=False,
+                      auto=(i % 2 == 1))
+        c['requires'], c['requires_private'], c['deps'] = [], [], {}
+    h = HDR_DIRS[i % len(HDR_DIRS)]
+    l = LIB_DIRS[(i + i // len(LIB_DIRS)) % len(LIB_DIRS)]
+    if h is None and l is None:
+        l = LIB_DIRS[0]
+    c['install_dirs'] = {'headers': h, 'libs': l}
+    return c
+
+
 # (package name, submodules, the .pc names the stand-in mopack resolves it to)
 PKG_POOL = [('ext1', [], ['ext1']),
             ('ext2', ['extra'], ['ext2', 'ext2-extra']),
@@ -719,6 +754,9 @@ def cases(tier, seed):
                             not (not auto and si == (mi + 1) % len(MODE_SHAPES)):
                         continue
                     out.append(libmode_case(rng, mode, shape, auto))
+    # phase C2b: install(..., directory=...)
+    for i in range(8 if q else 72):
+        out.append(installdir_case(rng, i))
     # phase C3: external package() objects as requirements
     out += list(package_cases(rng, q))
     # phase D: versions
@@ -825,7 +863,22 @@ def render_project(c):
     priv = [var[n] for n in c['pc_libs_private']]
     omit = set(c['omit']) if c['auto_fill'] else set()
     kw = []
-    if 'includes' in omit or 'libs' in omit:
+    idirs = c.get('install_dirs')
+    if idirs:
+        # everything the description names is installed by the script itself, to
+        # places of the script's choosing, before pkg_config() sees it
+        def dir_arg(d):
+            if d is None:
+                return ''
+            if d['form'] == 'rel':
+                return ', directory=%r' % d['value']
+            return ', directory=Path(%r, InstallRoot.%s)' % (d['value'], d['root'])
+        if hvars:
+            lines.append('install(%s%s)' % (', '.join(hvars), dir_arg(idirs['headers'])))
+        if pub + priv:
+            lines.append('install(%s%s)' % (', '.join(pub + priv),
+                                            dir_arg(idirs['libs'])))
+    elif 'includes' in omit or 'libs' in omit:
         inst = (hvars if 'includes' in omit else []) + (pub if 'libs' in omit else [])
         if inst:
             lines.append('install(%s)' % ', '.join(inst))
@@ -887,6 +940,19 @@ class Layout:
         self.empty = os.path.join(root, 'empty')
         for d in (self.deps, self.cal, self.empty):
             os.makedirs(d, exist_ok=True)
+
+    def install_base(self, default_root, d):
+        """Where install(x, directory=d) puts things whose default root is
+        default_root: a string is appended to the default location, a Path
+        replaces it."""
+        roots = {'prefix': self.prefix, 'exec_prefix': self.prefix,
+                 'libdir': self.libdir, 'includedir': self.includedir,
+                 'datadir': os.path.join(self.prefix, 'share')}
+        if d is None:
+            return roots[default_root]
+        if d['form'] == 'rel':
+            return os.path.join(roots[default_root], d['value'])
+        return os.path.join(roots[d['root']], d['value'])
 
     def configure_args(self, c):
         a = ['--prefix', self.prefix]
@@ -1043,10 +1109,14 @@ def model(c, lay, form):
         def libdir(l):
             return real(os.path.join(lay.build, os.path.dirname(l['path'])))
     else:
-        inc = [real(lay.includedir)] if c['includes'] else []
+        idirs = c.get('install_dirs') or {'headers': None, 'libs': None}
+        inc = [real(lay.install_base('includedir', idirs['headers']))] \
+            if c['includes'] else []
+        lbase = lay.install_base('libdir', idirs['libs'])
 
         def libdir(l):
-            return real(os.path.join(lay.libdir, os.path.dirname(l['path'])))
+            # (what a library needs is installed along with it, to the same place)
+            return real(os.path.join(lbase, os.path.dirname(l['path'])))
     m['include_dirs'] = inc
     m['options'] = list(c['options'])
     pub = list(c['pc_libs'])
@@ -2102,6 +2172,27 @@ def _run_in(case, res, classify, root):
         if c['consumer'] and built and flags_ok and all(ok.values()) and \
                 go['cflags_argv'] is not None and go['libs_argv'] is not None:
             libs = lib_by_name(c)
+            if form == 'installed':
+                # the modelled install layout is the real one ...
+                missing = [os.path.join(m['include_dirs'][0], i['header'])
+                           for i in c['includes']
+                           if not os.path.exists(os.path.join(m['include_dirs'][0],
+                                                              i['header']))]
+                for n in m['libs_static_required']:
+                    pats = {'static': ['a'], 'shared': ['so'],
+                            'dual': ['so', 'a']}[libs[n]['kind']]
+                    missing += [os.path.join(m['libdir_of'][n], 'lib%s.%s' % (n, e))
+                                for e in pats if not os.path.exists(os.path.join(
+                                    m['libdir_of'][n], 'lib%s.%s' % (n, e)))]
+                if missing:
+                    res.inconclusive = ('installed layout differs from the model: '
+                                        + ', '.join(missing)[:400])
+                    return
+                res.ev('install:files_at_modelled_place')
+                # ... and the consumer sees nothing but the installed tree
+                for d in (lay.build, lay.src):
+                    os.rename(d, d + '.hidden')
+                res.ev('consumer:installed_tree_only')
             need_static = bool(m['libs_static_required'][len(m['libs_plain']):]) and \
                 any(libs[n]['kind'] == 'static' for n in m['libs_plain'])
             run_consumer(res, c, lay, m, form, go, need_static)
